@@ -79,6 +79,22 @@ func (g *gen) query() storagesc.VerifStorageQuery {
 		q.Assigners = append(q.Assigners, a.name)
 	}
 	q.ReadKeys = append(q.ReadKeys, g.readKeys...)
+	// stake pool nodes saved under an id that is not a provider (clients, delegate wallets, the sc owner)
+	prov := map[string]bool{}
+	for _, id := range q.Blobbers {
+		prov[id] = true
+	}
+	for _, id := range q.Validators {
+		prov[id] = true
+	}
+	ids := make([]string, 0, len(g.w.Keys))
+	for id := range g.w.Keys {
+		if !prov[id] {
+			ids = append(ids, id)
+		}
+	}
+	sort.Strings(ids)
+	q.StakePoolAt = ids
 	return q
 }
 
@@ -124,6 +140,9 @@ func liabilities(s *storagesc.VerifStorageSnap) liab {
 	}
 	sp(s.Blobbers)
 	sp(s.Validators)
+	for _, e := range s.ExtraPools {
+		sp([]storagesc.VerifStorageProvider{{StakePool: e.StakePool}})
+	}
 	l.total.Add(l.total, l.w).Add(l.total, l.c).Add(l.total, l.r).Add(l.total, l.s)
 	return l
 }
@@ -244,6 +263,11 @@ func (g *gen) project(fn string, from *world.Key, class string, value uint64, op
 		}
 		assigners = append(assigners, rec.M{"a": a.ID, "present": a.Present, "ind": p.u(a.IndLimit), "tot": p.u(a.TotLimit), "red": p.u(a.Redeemed), "nonces": nonces})
 	}
+	xpools := []rec.M{}
+	for _, e := range snap.ExtraPools {
+		st, rw := stakeOf(e.StakePool)
+		xpools = append(xpools, rec.M{"a": g.name(e.ID), "validator": e.Validator, "stake": p.u(st), "rew": p.u(rw), "offers": p.u(e.StakePool.TotalOffers)})
+	}
 	l := liabilities(snap)
 	wNow := new(big.Int).SetUint64(w.Balance(world.Contracts["storagesc"]))
 	dbal := []pair{}
@@ -279,7 +303,7 @@ func (g *gen) project(fn string, from *world.Key, class string, value uint64, op
 		"allocs": allocs, "blobs": blobs, "vals": vals, "rpools": rpools, "rctrs": rctrs, "assigners": assigners,
 		"L": p.rel(l.total, g.l0), "W": p.rel(wNow, new(big.Int).SetUint64(g.w0)),
 		"Lw": p.u(l.w.Uint64()), "Lc": p.u(l.c.Uint64()), "Lr": p.u(l.r.Uint64()), "Ls": p.u(l.s.Uint64()),
-		"accrued": p.u(op.accrued), "dbal": dbal,
+		"accrued": p.u(op.accrued), "dbal": dbal, "xpools": xpools,
 		"rm_client": g.name(op.rmClient), "rm_blobber": g.name(op.rmBlobber), "rm_alloc": g.name(op.rmAlloc), "rm_ctr": rctr, "rm_sig": op.rmSig,
 		"fm_assigner": op.fmAssigner, "fm_recipient": g.name(op.fmRecipient), "fm_tokens": p.u(op.fmTokens), "fm_nonce": fnonce, "fm_sig": op.fmSig,
 		"panic": panicked,
